@@ -48,7 +48,9 @@ def lexer_conformance(v, tier):
         exp = list(nsast.seq(x["kinds"]))
         if resp.get("st") in ("PANIC", "CRASH", "HANG") or got != exp or resp.get("lex_errors"):
             key = "lexer:" + "+".join(exp) + ":" + repr(texts[i])[:40]
-            v.finding("lexer:" + le.core_key(texts[i]), "the real lexer reads %r as %s, the layout rules say %s" % (texts[i], got, exp), {"text": texts[i], "got": got, "expected": exp})
+            # abstract key: the character classes around the first token that differs (c07.cls: one letter per class)
+            import c07
+            v.finding("lexer:" + "+".join(exp)[:40] + ":" + c07.class_string(texts[i])[:24], "the real lexer reads %r as %s, the layout rules say %s" % (texts[i], got, exp), {"text": texts[i], "got": got, "expected": exp})
         else:
             same += 1
     return states, trans, same, len(recs)
@@ -107,7 +109,8 @@ def run(tier):
                 got = view(resp.get(mode, {}))
                 if got != b:
                     ok = False
-                    v.finding("layout:%s:%s" % (name, le.core_key(base_src)), "layout %s changes the behaviour (%s): pretty -> %s, %s -> %s\n%s\n---\n%r" % (name, mode, b[:2], name, got[:2], base_src, src),
+                    kind = "acceptance" if (b[0] in ("parse_error", "static_error")) != (got[0] in ("parse_error", "static_error")) else "behaviour"
+                    v.finding("layout:%s:%s" % (name, kind), "layout %s changes the behaviour (%s): pretty -> %s, %s -> %s\n%s\n---\n%r" % (name, mode, b[:2], name, got[:2], base_src, src),
                               {"pretty": base_src, "layout": name, "source": src, "pretty_result": b, "layout_result": got})
             if ref is not None and mode == "nn" and b[0] not in ("parse_error", "static_error"):
                 exp = (ref["st"], tuple(nsast.spec_value(x) for x in nsast.seq(ref["out"])))
